@@ -37,12 +37,16 @@ ENTRIES = [
     ("NeuroMLHdf5Loader.load", "neuroml/loaders.py", "NeuroMLHdf5Loader", "load", []),
     ("read_neuroml2_file", "neuroml/loaders.py", None, "read_neuroml2_file", []),
     ("read_neuroml2_string", "neuroml/loaders.py", None, "read_neuroml2_string", []),
+    # the two places where the XML parser is constructed and run (a retry with another parser after a failure
+    # would show as an except clause that does not re-raise: `reports` fails)
+    ("parsexml_", "neuroml/nml/nml.py", None, "parsexml_", []),
+    ("parsexmlstring_", "neuroml/nml/nml.py", None, "parsexmlstring_", []),
 ]
 
 # calls that are themselves entry points or go straight to the file layer (verified / injected separately)
 FILE_FUNCS = {"nmlparse", "nmlparsestring", "read_neuroml2_string", "read_neuroml2_file", "_read_neuroml2",
               "NeuroMLWriter.write", "NeuroMLHdf5Loader.load", "NeuroMLLoader.load", "currParser.parse",
-              "parsexml_", "parsexmlstring_"}
+              "parsexml_", "parsexmlstring_", "etree_.parse", "etree_.fromstring", "etree_.XML", "etree_.iterparse"}
 # method names resolved across nml.py / NetworkContainer.py when called on (part of) the document
 DOC_METHODS = {"exportHdf5", "export"}
 MUTATORS = {"append", "extend", "insert", "pop", "remove", "clear", "update", "setdefault", "add", "discard",
@@ -655,8 +659,57 @@ def iter_state():
     return rows
 
 
+PARSER_CTORS = {"ETCompatXMLParser", "XMLParser", "XMLPullParser", "HTMLParser", "HTMLPullParser", "iterparse"}
+# keyword arguments that make libxml2 accept or silently repair input that is not a well-formed document
+LAX_KEYWORDS = {"recover"}
+
+
+def parser_table():
+    """every construction of an XML parser in nml.py / loaders.py / utils.py: (function, constructor, lax flags)"""
+    rows = []
+    for rel in ("neuroml/nml/nml.py", "neuroml/loaders.py", "neuroml/utils.py"):
+        m = module(rel)
+
+        def scan(fn, qual):
+            for n in ast.walk(fn):
+                if isinstance(n, ast.Call) and isinstance(n.func, (ast.Attribute, ast.Name)):
+                    nm = n.func.attr if isinstance(n.func, ast.Attribute) else n.func.id
+                    if nm not in PARSER_CTORS:
+                        continue
+                    lax = []
+                    if nm.startswith("HTML"):
+                        lax.append("html parser")
+                    for k in n.keywords:
+                        if k.arg is None:
+                            lax.append("**kwargs")
+                        elif k.arg in LAX_KEYWORDS and not (isinstance(k.value, ast.Constant) and k.value.value in (False, None)):
+                            lax.append("%s=%s" % (k.arg, dotted(k.value)))
+                    if nm == "iterparse" and not any(k.arg == "recover" for k in n.keywords):
+                        pass
+                    rows.append({"file": rel, "func": qual, "line": n.lineno, "ctor": nm, "lax": lax})
+
+        for fname, fn in m.funcs.items():
+            scan(fn, fname)
+        if rel != "neuroml/nml/nml.py":  # the 199 generated classes construct no parser; their methods are scanned through the module walk below
+            for cname, c in m.classes.items():
+                for n in c.body:
+                    if isinstance(n, ast.FunctionDef):
+                        scan(n, cname + "." + n.name)
+        else:
+            for cname, c in m.classes.items():
+                for n in c.body:
+                    if isinstance(n, ast.FunctionDef):
+                        scan(n, cname + "." + n.name)
+    return rows
+
+
 def main():
     out = {"entries": [], "untranslatable": [], "expected": [e[0] for e in ENTRIES]}
+    try:
+        out["parsers"] = parser_table()
+    except (OSError, SyntaxError) as x:
+        out["parsers"] = []
+        out["untranslatable"].append("neuroml/nml/nml.py:parser_table:0:%s" % x)
     try:
         out["iter_state"] = iter_state()
     except (OSError, SyntaxError) as x:
